@@ -463,7 +463,8 @@ func marshalTo(read *thrift.BinaryProtocol, write *thrift.BinaryProtocol, from *
 	switch t := to.Type(); t {
 	case thrift.STRUCT:
 		if from == to {
-			return nil
+			// the very same descriptor: the value is copied as it is
+			goto skip_val
 		}
 		var req *thrift.RequiresBitmap
 		if !opts.NotCheckRequireNess {
